@@ -1212,7 +1212,7 @@ func TestVerifC03(t *testing.T) {
 	rep.AddCounts(0, 0, 0, stat4.nontrivial)
 	// host arguments of several rows read back as blocks (string hosts of equal and different lengths, int hosts, empty
 	// states in one column), see verif_c03_block_test.go
-	hostT := c03HostBlockTemplates()
+	hostT := c03HostBlockTemplates(mc.Pick(2, 3)) // bodies of more rows with string hosts also arise in the main part
 	hostItems := make([][]byte, len(hostT))
 	for i := range hostT {
 		it, err := c03BuildItem(&hostT[i])
